@@ -9,7 +9,7 @@ sched.cov_register(__name__.split('.')[-1])      # dev-only: VERIF_COVERAGE=1
 ID = 'C08'
 COQ_MODEL = 'model.TsProps'
 COQ_CORR = 'corr_C08'
-N_QUICK = 1000
+N_QUICK = 800
 N_THOROUGH = 5000
 THOROUGH_EXHAUSTIVE = True
 VM_CASES = 30
@@ -159,6 +159,11 @@ def corpus():
         _arr([_call('tA', [['ret', 'file']]), _call('tC', [['form_see'], ['see']], method='POST', form='f=tCf', hook_input=True),
               _call('tE', [['req_set', 'QUERY_STRING', 'q=tEq'], ['req_set', 'QUERY_STRING', 'x=1'], ['see']], readonly=True)],
              0, [[400, 1], [400, 2]]),
+        # workers that run inside a copy of the constructing context (asyncio.to_thread, ASGI->WSGI bridges)
+        _arr([_call('tA', [['see'], ['hdr', 'X-A', 'tAh'], ['cookie', 'k', 'tAk'], ['see']], cookie='c=tAc'),
+              _call('tC', [['see'], ['status', 201], ['ext'], ['see']], xt='tCxt0')], 0, [[500, 1], [500, 0]], ctx_copy=True),
+        # per-request attributes under public and private names, and the cached header view
+        _arr([_call('tA', [['ext'], ['see'], ['see']], xt='tAxt0'), _call('tC', [['see'], ['ext'], ['see']])], 0, [[600, 1]]),
         # the same signed cookie with a mutable payload in two requests: each handler changes ITS decoded value in place
         _arr([_call('tA', [['sess_mutate'], ['see']], signed=True, cookie='c=tAc'),
               _call('tC', [['see'], ['sess_mutate'], ['see']], signed=True)], 0, [[900, 1]]),
@@ -166,8 +171,8 @@ def corpus():
               _call('tC', [['req_set', 'QUERY_STRING', 'o=tCo'], ['see']])], 0, [[500, 1]]),
         # witness of the listed finding C08-listeners-shared (printed as KNOWN-FINDING on every run): tA keeps a listener
         # registered while tC, served by another thread on the same application, changes ITS environ
-        _arr([_call('tA', [['listen_around', [['see']] * 6]]), _call('tC', [['req_set', 'HTTP_X_T', 'tCxt'], ['req_del']])],
-             0, [[550, 1]]),
+        _arr([_call('tA', [['listen_around', [['yield_to', 1], ['see']]]]), _call('tC', [['req_set', 'HTTP_X_T', 'tCxt'], ['req_del']])],
+             0, []),
         # answers without a body whose iterable has to be closed
         _arr([_call('tA', [['see'], ['gen', 2]], method='HEAD'), _call('tC', [['status', 204], ['ret', 'file']]),
               _call('tE', [['status', 304], ['gen', 1]])], 0, [[500, 1], [500, 2]]),
@@ -317,6 +322,8 @@ def _gen_arr(rng):
                 kw['chunked_ok'] = True        # a legal chunked upload (two-digit hex size lines)
         if rng.random() < 0.4:
             kw['cookie'] = 'c=%sc' % tok
+        if rng.random() < 0.3:
+            kw['xt'] = tok + 'xt0'
         if rng.random() < 0.2:
             kw['accept'] = 'application/json'
         if rng.random() < 0.1:
@@ -335,7 +342,9 @@ def _gen_arr(rng):
             script.insert(rng.randrange(len(script)), ['sess_mutate'])
         calls.append(_call(tok, script, **kw))
     switches = [[rng.randrange(1, 1000), rng.randrange(n)] for _ in range(rng.randrange(1, 5))]
-    return _arr(calls, rng.randrange(n), switches, cfg=cfg)
+    # a third of the scenarios run on workers of a task-based server: each thread inside a copy of the context in which
+    # the application was built
+    return _arr(calls, rng.randrange(n), switches, cfg=cfg, ctx_copy=rng.random() < 0.33)
 
 
 def gen(rng, n):
